@@ -198,6 +198,26 @@ let conv_handle cmd args got : string option =
         | None -> Some "MODEL: store outside buf[256]"
         | Some out -> Some (xs ^ " H " ^ hexl out))
      | _ -> if got = "EXC" then None else Some "X ...")
+  | "recipe" ->
+    (* conv-spec: skip_empty trim less_anom free nrefl seed mode ncols {hexlabel type}* nspec {hexline}* [sgrow] *)
+    let c = { toks = words args } in
+    let _ = nint c in let _ = nint c in let less = nint c in let _ = nint c in
+    let _ = nint c in let _ = next c in let _ = nint c in
+    let ncols = nint c in
+    let cols = times ncols (fun () -> let l = nstr c in let t = nint c in { cl_label = s2l l; cl_type = zi t }) in
+    let hkl = List.map (fun ch -> { cl_label = [zi (Char.code ch)]; cl_type = zi 72 }) ['H'; 'K'; 'L'] in
+    let nspec = nint c in
+    let spec = times nspec (fun () -> s2l (nstr c)) in
+    let lines = if nspec = 0 then m2c_merged_raw else spec in
+    let o = { o_less = zi less; o_merged = true; o_star_empty = true } in
+    let all = hkl @ cols in
+    (match prepare_recipe o all lines with
+     | None -> Some "FAIL"
+     | Some r ->
+       let sh = shown all r in
+       let tags = String.concat "," (List.map (fun (t, _) -> hexl t) sh) in
+       let ann = List.filter_map (fun (t, l) -> match l with Some l -> Some (hexl l ^ ":" ^ hexl t) | None -> None) sh in
+       Some ("R " ^ tags ^ " A " ^ (if ann = [] then "none" else String.concat "," ann)))
   | _ -> None
 (*/CONV*)
 let handle cmd args got : string option =
